@@ -225,9 +225,13 @@ DT2WASI = {2: 2, 4: 3, 8: 4, 10: 7, 6: 1}
 
 
 class RdSession:
-    """One descriptor of the real harness; records (bufLen, cookie) calls and answers."""
+    """One descriptor of the real harness; records (bufLen, cookie, errno on entry) calls and answers.
+    Every fd_readdir call is made inside a HISTORY: with `errno` left behind by an earlier failing host call
+    (`keep`: a path_filestat_get on a missing file directly before it) or set by the caller to some value —
+    both are legal process state and must not influence the listing."""
+    POISON = [0, 2, 5, 9, 20, "keep", 13, "keep"]      # 0, ENOENT, EIO, EBADF, ENOTDIR, EACCES
 
-    def __init__(self, h, path):
+    def __init__(self, h, path, phase=0):
         self.h = h
         a = h.ask("preopen " + wp.hexs(path))
         if not a.startswith("fd "):
@@ -235,10 +239,23 @@ class RdSession:
         self.fd = a.split()[1]
         self.calls = []
         self.outs = []
+        self.k = phase
+        self.failed_calls = 0
 
     def rd(self, bl, cookie):
-        o = self.h.ask(f"rd {self.fd} {bl} {cookie}")
-        self.calls.append((bl, cookie))
+        mode = self.POISON[self.k % len(self.POISON)]
+        self.k += 1
+        if mode == "keep":
+            miss = b"w2c2verif-missing"
+            r = self.h.ask(f"stat {self.fd} {wp.hexs(miss)} {len(miss)}")
+            self.failed_calls += 1
+            stale = "ENOENT" if r.split()[0] == "44" else "-"
+            if stale == "-":
+                mode = 0
+        else:
+            stale = pyerrno.errorcode.get(mode, "-") if mode else "-"
+        o = self.h.ask(f"rd {self.fd} {bl} {cookie} {mode}")
+        self.calls.append((bl, cookie, stale))
         self.outs.append(o)
         return o
 
@@ -268,6 +285,23 @@ def listing(sess, bl, cookie=0, limit=100000):
     return recs, True, None
 
 
+def readdir_error_violation(chk, s, bad, nents, bl, spec):
+    last = s.calls[-1]
+    chk.violation(f"readdir-error-{bad.split()[0]}" + ("-after-earlier-failure" if last[2] != "-" else ""),
+                  f"fd_readdir failed on a healthy directory descriptor: `{bad[:120]}` (directory of {nents} entries, buffer {bl}; call #{len(s.calls)} on this descriptor, cookie {last[1]}, errno on entry = {last[2]} "
+                  f"{'left behind by an earlier failing call / set by the caller — legal state that must not influence the listing' if last[2] != '-' else ''})",
+                  {"kind": "readdir-errno", "entries": spec[:4000], "calls (bufLen, cookie, errno on entry)": s.calls, "answer": bad, "bufLen": bl}, True)
+
+
+def readdir_replay_dir(root, names_hex):
+    os.mkdir(root)
+    for nh in names_hex:
+        n = bytes.fromhex(nh)
+        if n not in (b".", b".."):
+            open(os.path.join(root.encode(), n), "wb").close()
+    return root.encode()
+
+
 def run_readdir(chk, h, scratch, pm, tier, broken, model_ok):
     rng = chk.rng
     sizes = [0, 1, 3, 17, 60] if tier == "quick" else [0, 1, 2, 3, 5, 17, 64, 120, 200]
@@ -295,31 +329,32 @@ def run_readdir(chk, h, scratch, pm, tier, broken, model_ok):
         truth = [(e[3], e[1], e[0], DT2WASI.get(e[2], 0)) for e in ents]
         bls = buflens if n <= 64 or tier == "quick" else buflens[::5]
         for bl in bls:
-            s = RdSession(h, d)
+            s = RdSession(h, d, phase=stats["listings"])
             recs, stuck, bad = listing(s, bl)
             stats["listings"] += 1
             key = ("list", di, bl)
             chk.count_case(key, True, {"dir_entries": len(ents), "bufLen": bl, "calls": len(s.calls), "first": s.outs[0][:60]} if bl in (24, 300) and di in (1, 3) else None)
             if bad:
-                chk.violation(f"readdir-error-{bad.split()[0]}", f"fd_readdir failed on a valid directory descriptor: `{bad[:160]}` (directory of {len(ents)} entries, buffer {bl})",
-                              {"kind": "readdir", "entries": spec[:4000], "calls": s.calls, "answer": bad}, True)
+                readdir_error_violation(chk, s, bad, len(ents), bl, spec)
             elif stuck and bl >= 24 + maxname:
                 chk.violation("readdir-no-progress", f"buffer of {bl} bytes can hold every entry (max name {maxname}) but a call returned no complete entry",
-                              {"kind": "readdir", "entries": spec[:4000], "calls": s.calls}, True)
+                              {"kind": "readdir", "names": [e[0].hex() for e in ents][:300], "bufLen": bl, "entries": spec[:4000], "calls": s.calls}, True)
             elif stuck:
                 stats["stuck_small_buffer"] += 1
             elif recs != truth:
                 chk.violation("readdir-not-exactly-once", f"client protocol with buffer {bl} on a directory of {len(ents)} entries did not deliver every entry exactly once in stream order with the specified layout ({len(recs)} records)",
-                              {"kind": "readdir", "entries": spec[:4000], "calls": s.calls, "got": [r[2].hex() for r in recs][:50]}, True)
+                              {"kind": "readdir", "names": [e[0].hex() for e in ents][:300], "bufLen": bl, "entries": spec[:4000], "calls": s.calls, "got": [r[2].hex() for r in recs][:50]}, True)
             # resume from a returned cookie (any earlier d_next), on the same (already advanced) stream
             if recs and not bad and bl >= 24 + maxname:
                 for _ in range(2 if tier == "quick" else 4):
                     k = rng.randrange(len(truth))
                     recs2, stuck2, bad2 = listing(s, bl, truth[k][0])
                     stats["resumes"] += 1
-                    if bad2 or stuck2 or recs2 != truth[k + 1:]:
+                    if bad2:
+                        readdir_error_violation(chk, s, bad2, len(ents), bl, spec)
+                    elif stuck2 or recs2 != truth[k + 1:]:
                         chk.violation("readdir-resume-cookie", f"resuming from the cookie of entry {k} did not deliver exactly the entries after it",
-                                      {"kind": "readdir", "entries": spec[:4000], "calls": s.calls}, True)
+                                      {"kind": "readdir", "names": [e[0].hex() for e in ents][:300], "bufLen": bl, "entries": spec[:4000], "calls": s.calls}, True)
             s.close()
             sessions.append((d, loc0, ents, s))
         # cookie 0 after a (complete or partial) listing must restart from the beginning
@@ -334,7 +369,9 @@ def run_readdir(chk, h, scratch, pm, tier, broken, model_ok):
                 recs, stuck, bad = listing(s, bl, 0)
                 stats["listings"] += 1
                 chk.count_case(("cookie0", di, partial), True, None)
-                if bad or stuck or recs != truth:
+                if bad:
+                    readdir_error_violation(chk, s, bad, len(ents), bl, spec)
+                elif stuck or recs != truth:
                     chk.violation("readdir-cookie0-no-rewind",
                                   f"fd_readdir with cookie 0 on a descriptor that has already been listed {'partially' if partial else 'completely'} does not restart at the first entry: got {len(recs)} of {len(truth)} entries (the stream is only positioned for non-zero cookies; no rewinddir)",
                                   {"kind": "readdir-cookie0", "dir_entries": [e[0].hex() for e in ents][:20], "calls": s.calls,
@@ -346,7 +383,7 @@ def run_readdir(chk, h, scratch, pm, tier, broken, model_ok):
         lines = []
         for d, loc0, ents, s in sessions:
             es = ",".join(f"{wp.hexs(e[0])}:{e[1]}:{e[2]}:{e[3]}" for e in ents) or "-"
-            lines.append(f"rdsess {pm} {wp.hexs(d)} {loc0} {es} " + ",".join(f"{a}:{b}" for a, b in s.calls))
+            lines.append(f"rdsess {pm} {wp.hexs(d)} {loc0} {es} " + ",".join(f"{a}:{b}:{c}" for a, b, c in s.calls))
         import concurrent.futures as cf
         k = 8
         chunks = [lines[i::k] for i in range(k)]
@@ -418,7 +455,7 @@ def twin_exec(op, a2b):
             if int(t[3]) == 0:
                 return "EINVAL", None         # readlink(2) on Linux: bufsiz <= 0 is rejected before the lookup
             r = os.readlink(f(t[2]))
-            return None, r[:int(t[3])]
+            return None, r                    # the whole target; the caller truncates to the guest buffer
         elif t[1] == "stat":
             st = os.stat(f(t[2]))
             ft = 3 if stat.S_ISDIR(st.st_mode) else 4 if stat.S_ISREG(st.st_mode) else 2 if stat.S_ISCHR(st.st_mode) else 0
@@ -469,6 +506,38 @@ def ref_pathop(pm, kind, slots, paths, extra=None):
             return "errno 28"
         return f"host symlink {wp.hexs(cstr(tgt))} {wp.hexs(r)}"
     raise ValueError(kind)
+
+
+def readlink_frame(chk, drv, broken, rt, bl, target, ename, mline, host_op):
+    """path_readlink answer `errno n hex(memory before the path) pathK` in the harness layout
+    [0,4) length cell | [4,16) guard | [16,16+bl) buffer | 8 guard bytes | path.  Required: on success the first
+    min(|target|, bl) bytes of the target in the buffer and the length in the cell; every other byte untouched
+    (exact fit and truncation included); on failure nothing written at all."""
+    if len(rt) < 4:
+        return
+    exp = bytearray(b"\xaa" * (24 + bl))
+    if target is not None:
+        n = min(len(target), bl)
+        exp[16:16 + n] = target[:n]
+        exp[0:4] = struct.pack("<I", n)
+    got = wp.unhexs(rt[2])
+    if got != bytes(exp) or rt[3] != "path1":
+        diff = [i for i in range(min(len(got), len(exp))) if got[i] != exp[i]]
+        outside = [i for i in diff if not (16 <= i < 16 + (min(len(target), bl) if target is not None else 0)) and not (i < 4 and target is not None)]
+        where = (f"byte {outside[0] - 16 - bl} past the end of the {bl}-byte buffer" if outside and outside[0] >= 16 + bl else
+                 f"offset {outside[0] - 16} relative to the buffer" if outside else "inside the buffer / length cell") if diff else "the guest path bytes behind the buffer"
+        key = "pathop-readlink-writes-outside-buffer" if (outside or rt[3] != "path1") else "pathop-readlink-wrong-content"
+        chk.violation(key, f"path_readlink with a {bl}-byte guest buffer and link target {target!r} ({'exact fit' if target is not None and len(target) == bl else 'truncated' if target is not None and len(target) > bl else 'shorter than the buffer' if target is not None else 'failing call'}): guest memory differs from the required image at {where} "
+                           f"(got {got[max(0, 12):16 + bl + 8].hex()} for guard|buffer|guard, required {bytes(exp)[12:16 + bl + 8].hex()})",
+                      {"kind": "pathop-readlink", "request": mline, "host_op": host_op, "bufLen": bl, "target": target.hex() if target is not None else None,
+                       "real": " ".join(rt)[:400], "expected_memory": bytes(exp).hex()[:400]}, True)
+    if drv is not None:
+        arg = wp.hexs(target) if target is not None else f"err:{ename}"
+        mo = drv.batch([f"rlmem {bl} {arg}"])[0].split()
+        if target is None:
+            mo = mo[:1] + ["0"] + mo[2:]
+        if mo[1:3] != rt[1:3] or (target is not None and mo[0] != rt[0]):
+            broken.append({"kind": "correspondence", "msg": f"path_readlink memory effect, buffer {bl}, target {target!r}: real `{' '.join(rt[:3])[:120]}` model `{' '.join(mo)[:120]}`"})
 
 
 def run_pathops(chk, h, scratch, pm, tier, broken, model_ok):
@@ -529,6 +598,10 @@ def run_pathops(chk, h, scratch, pm, tier, broken, model_ok):
             fd, slot = pick_fd()
             sl = lambda x: x if x in ("null", "oob") else wp.unhexs(x)
             p = pick_path()
+            directed_bl = None
+            if oi < 7:      # directed: the link `lnk` -> "file1" (5 bytes) read with shorter, exact-fit and longer buffers
+                kind, fd, slot, p = "readlink", fds[0], wp.hexs(slots[fds[0]]), b"lnk"
+                directed_bl = [5, 4, 6, 1, 3, 64, 5][oi]
             if p is None:
                 dl = len(wp.unhexs(slot)) if slot not in ("null", "oob") else 10
                 p = b"y" * max(1, pm - dl - 1 + rng.choice([-2, -1, 0, 1]))
@@ -538,7 +611,7 @@ def run_pathops(chk, h, scratch, pm, tier, broken, model_ok):
                 mline = f"pop {pm} {kind} {slot} {wp.hexs(p)} {len(p)}"
                 ref = ref_pathop(pm, kind, [sl(slot)], [p])
             elif kind == "readlink":
-                bl = rng.choice([0, 3, 64, 5000])
+                bl = directed_bl if directed_bl is not None else rng.choice([0, 1, 3, 4, 5, 6, 9, 64, 5000])
                 real = h.ask(f"readlink {fd} {wp.hexs(p)} {len(p)} {bl}")
                 mline = f"pop {pm} readlink {slot} {wp.hexs(p)} {len(p)} {bl}"
                 ref = ref_pathop(pm, kind, [sl(slot)], [p], bl)
@@ -572,6 +645,8 @@ def run_pathops(chk, h, scratch, pm, tier, broken, model_ok):
                 continue
             rt = real.split()
             if m.startswith("errno "):
+                if kind == "readlink":
+                    readlink_frame(chk, None, broken, rt, bl, None, None, mline, m)
                 exp = m.split()[1]
                 errs["early:" + exp] = errs.get("early:" + exp, 0) + 1
                 if rt[0] != exp:
@@ -603,12 +678,13 @@ def run_pathops(chk, h, scratch, pm, tier, broken, model_ok):
                     chk.violation(f"pathop-{kind}-wrong-errno-{ename or 'ok'}",
                                   f"{kind}: performing `{m[:120]}` directly gives {ename or 'success'} (WASI {exp_ref}); the real call returned `{real[:60]}`",
                                   {"kind": "pathop", "request": mline, "real": real, "expected": exp_ref, "host_op": m}, True)
-            if ename is None and m.split()[1] == "readlink":
-                if len(rt) < 3 or wp.unhexs(rt[2]) != (extra2 if not extra2.startswith(Bb) else Ab + extra2[len(Bb):]):
-                    chk.violation("pathop-readlink-wrong-content", f"path_readlink: real `{real[:80]}`, readlink of the resolved path gives `{extra2[:40]}`",
-                                  {"kind": "pathop", "request": mline, "real": real, "expected": extra2.hex(), "host_op": m}, True)
-            if ename is None and m.split()[1] == "stat":
-                if len(rt) < 3 or (int(rt[1]), int(rt[2])) != extra2:
+            if m.split()[1] == "readlink":
+                readlink_frame(chk, drv if model_ok else None, broken, rt, bl, extra2 if ename is None else None, ename, mline, m)
+            if m.split()[1] == "stat":
+                if rt[-1] != "frame1":
+                    chk.violation("pathop-stat-writes-outside-buffer", f"path_filestat_get wrote outside its 64-byte filestat buffer (or wrote although it failed): `{real[:80]}`",
+                                  {"kind": "pathop", "request": mline, "real": real, "expected": "frame1", "host_op": m}, True)
+                if ename is None and (len(rt) < 4 or (int(rt[1]), int(rt[2])) != extra2):
                     chk.violation("pathop-stat-wrong-result", f"path_filestat_get: real `{real[:80]}`, stat of the resolved path gives (filetype, size) = {extra2}",
                                   {"kind": "pathop", "request": mline, "real": real, "expected": str(extra2), "host_op": m}, True)
         sa, sb = snapshot(os.path.join(base, "A")), snapshot(os.path.join(base, "B"))
@@ -690,6 +766,54 @@ def replay(path):
             second, _, _ = listing(s, 300, 0)
             print(f"replay: first listing {len(first)} entries; second listing from cookie 0 on the same descriptor {len(second)} entries (must be {len(first)})")
             rc = 0 if first == second and len(first) == 7 else 1
+        elif kind == "readdir":
+            # same names (as regular files), same buffer size: full listing, then resume from every returned cookie
+            root = readdir_replay_dir(os.path.join(d, "dir"), r.get("names", []))
+            loc0, ents, seek = parse_dirspec(h.ask("dirspec " + wp.hexs(root)))
+            truth = [(e[3], e[1], e[0], DT2WASI.get(e[2], 0)) for e in ents]
+            bl = r.get("bufLen", 300)
+            s = RdSession(h, root)
+            recs, stuck, bad = listing(s, bl)
+            ok = not bad and not stuck and recs == truth
+            print(f"replay: listing of {len(truth)} entries with buffer {bl}: " + ("exactly once, in order" if ok else f"FAILS ({bad or len(recs)})"))
+            for k in range(len(truth)):
+                recs2, stuck2, bad2 = listing(s, bl, truth[k][0])
+                if bad2 or stuck2 or recs2 != truth[k + 1:]:
+                    print(f"replay: resume from the cookie of entry {k}: FAILS ({bad2 or len(recs2)})")
+                    ok = False
+            rc = 0 if ok else 1
+        elif kind == "readdir-errno":
+            # a healthy directory of 3 files listed inside a history of failing calls / non-zero errno on entry
+            root = os.path.join(d, "dir")
+            os.mkdir(root)
+            for i in range(3):
+                open(os.path.join(root, f"f{i}"), "w").close()
+            rc = 0
+            for phase in range(len(RdSession.POISON)):
+                s = RdSession(h, root.encode(), phase=phase)
+                recs, stuck, bad = listing(s, 300)
+                ok = not bad and not stuck and len(recs) == 5
+                print(f"replay: listing with errno-on-entry history {[c[2] for c in s.calls]}: " + (f"{len(recs)} entries, ok" if ok else f"FAILS: {bad or recs}"))
+                if not ok:
+                    rc = 1
+                s.close()
+        elif kind == "pathop-readlink":
+            root = os.path.join(d, "A", "root")
+            os.makedirs(root)
+            os.symlink("file1", os.path.join(root, "lnk"))
+            h.ask("reset")
+            fd = h.ask("preopen " + wp.hexs(root.encode())).split()[1]
+            rc = 0
+            for bl in (64, 6, 5, 4, 1):
+                out = h.ask(f"readlink {fd} {wp.hexs(b'lnk')} 3 {bl}").split()
+                exp = bytearray(b"\xaa" * (24 + bl))
+                n = min(5, bl)
+                exp[16:16 + n] = b"file1"[:n]
+                exp[0:4] = struct.pack("<I", n)
+                ok = len(out) == 4 and out[0] == "0" and wp.unhexs(out[2]) == bytes(exp) and out[3] == "path1"
+                print(f"replay: path_readlink of a link to \"file1\" into a {bl}-byte buffer: guard|buffer|guard = {wp.unhexs(out[2])[12:].hex() if len(out) > 2 else out} " + ("ok" if ok else f"— differs from the required {bytes(exp)[12:].hex()}"))
+                if not ok:
+                    rc = 1
         elif kind == "pathop-errno":
             root = os.path.join(d, "A", "root")
             os.makedirs(os.path.join(root, "full"))
